@@ -349,6 +349,43 @@ theorem msgForceUnlock_ok {t : Int} {s s' : State} {owner : Addr} {id : Nat} {co
                     obtain ⟨i2, e2⟩ := forceUnlock_ok i1 (Or.inr rfl) (getLock_mem g1).1 hs
                     exact ⟨i2, e1.trans e2⟩
 
+/-! ## CL shares locked by the concentrated-liquidity keeper -/
+
+theorem clLock_ok {t : Int} {force : Bool} {s s' : State} {owner : Addr} {dn : Denom} {a d : Int} {u : Bool} {rid : Nat}
+    (h : Inv s) (hs : clLock t s owner dn a d u = some (s', rid)) : Inv s' ∧ Eff t force s s' := by
+  unfold clLock at hs
+  split at hs
+  · cases hs
+  · rename_i hcl
+    have hcl : isCLDenom dn = true := by simpa using hcl
+    split at hs
+    · cases hs
+    · rename_i hd
+      cases h1 : mintCoinToModule s dn a with
+      | none => rw [h1] at hs; cases hs
+      | some s1 =>
+        rw [h1] at hs
+        obtain ⟨hdn, ha, rfl⟩ := mintCoinToModule_some h1
+        simp only [Option.bind_some] at hs
+        cases h2 : createLockNoSend { s with modBal := aadd s.modBal dn a } owner [(dn, a)] d with
+        | none => rw [h2] at hs; cases hs
+        | some p =>
+          obtain ⟨s2, id⟩ := p
+          rw [h2] at hs
+          simp only [Option.bind_some] at hs
+          obtain ⟨i2, e2, _, _⟩ := createLockNoSend_ok (t := t) (force := force) (B := s.bal) h (by omega) ha hdn
+            (by intro o dn' hcl'
+                have : dn ≠ dn' := by intro e; rw [e] at hcl; rw [hcl] at hcl'; cases hcl'
+                rw [if_neg (fun e => this e.2)]; omega)
+            (fun o dn' _ => Int.le_refl _) h2
+          cases u
+          · simp only [Bool.false_eq_true, if_false, Option.some.injEq, Prod.mk.injEq] at hs
+            obtain ⟨rfl, _⟩ := hs
+            exact ⟨i2, e2⟩
+          · simp only [if_true] at hs
+            obtain ⟨i3, e3, _⟩ := beginUnlock_ok (force := force) i2 (Or.inr ⟨dn, a, rfl, ha⟩) hs
+            exact ⟨i3, e2.trans e3⟩
+
 /-! ## every operation -/
 
 def Op.isForce : Op → Bool
@@ -388,5 +425,6 @@ theorem applyOp_ok {t : Int} {s s' : State} {op : Op} {r : Nat} (h : Inv s) (hs 
     simp only [applyOp, Option.map_eq_some_iff, Prod.mk.injEq] at hs
     obtain ⟨s1, hs, rfl, _⟩ := hs
     exact msgForceUnlock_ok h hs
+  | clLock o dn a d u => exact clLock_ok h hs
 
 end OsmoVerif.Lockup
